@@ -93,13 +93,13 @@ Theorem C18_any_clock_clean : forall (w : world sym) rp goal,
 Proof. exact c18_coarse_clean_sym. Qed.
 
 Theorem C18_invariant_after_every_history : forall mode t0 (ops : list (op sym)),
-  0 < t0 -> confined_history sym sym_eqb SContent SList SRule (init_world mode t0) ops ->
+  confined_history sym sym_eqb SContent SList SRule (init_world mode t0) ops ->
   coarse_inv sym_eqb SContent (run_sym ops (init_world mode t0)).
 Proof. exact coarse_inv_every_history_sym. Qed.
 
 (* hence the property under the coarse clock, after every history *)
 Theorem C18_coarse_clock_every_history : forall t0 (ops : list (op sym)) goal,
-  0 < t0 -> confined_history sym sym_eqb SContent SList SRule (init_world Coarse t0) ops ->
+  confined_history sym sym_eqb SContent SList SRule (init_world Coarse t0) ops ->
   build_confined sym (run_sym ops (init_world Coarse t0)) goal ->
   let w := run_sym ops (init_world Coarse t0) in
   let o1 := build_sym w RULES_PATH goal in
@@ -153,3 +153,88 @@ Theorem C18_coarse_clock_user_mv_refuted :
     ~ coarse_inv sym_eqb SContent (fst (apply_sym w (OMove p q))).
 Proof. exact coarse_inv_mv_refuted. Qed.
 Print Assumptions C18_coarse_clock_user_mv_refuted.
+
+(* ---- after a kill, any clock (round 4; Proofs/CoarseCrashFacts.v): the build that follows a killed build gives the
+   same verdict, files, cache, histories, commands and status with the saved table as with the table erased; and the
+   same after ANY history that contains kills at arbitrary points ---- *)
+From Ruler Require Import Inv Ideal BuildSpec InvFacts C01Hist C01Facts C11Facts C02Sym Acts Sched Fine FineFacts C18Facts CoarseInv CoarseBuild C18CoarseFacts CoarseCrash CoarseCrashFacts CoarseCrashFine EpochFacts.
+Local Open Scope nat_scope.
+
+Theorem C18_any_clock_build_after_a_killed_build : forall (w : world sym) goal pre suf goal',
+  coarse_inv_sym w -> build_confined sym w goal ->
+  build_acts_sym w RULES_PATH goal = pre ++ suf ->
+  let wc := tick (run_acts_sym pre w) in
+  build_confined sym wc goal' ->
+  let o1 := build_sym wc RULES_PATH goal' in
+  let o2 := build_sym (erase_table sym wc) RULES_PATH goal' in
+  o_verdict o1 = o_verdict o2 /\ w_files (o_world o1) = w_files (o_world o2) /\
+  rd_cache (w_rd (o_world o1)) = rd_cache (w_rd (o_world o2)) /\
+  rd_hist (w_rd (o_world o1)) = rd_hist (w_rd (o_world o2)) /\
+  o_commands o1 = o_commands o2 /\ o_status o1 = o_status o2.
+Proof. exact coarse_crash_next_build_table_irrelevant_sym. Qed.
+Print Assumptions C18_any_clock_build_after_a_killed_build.
+
+Theorem C18_any_clock_build_after_a_killed_clean : forall (w : world sym) goal pre suf goal',
+  coarse_inv_sym w ->
+  clean_acts_sym w RULES_PATH goal = pre ++ suf ->
+  let wc := tick (run_acts_sym pre w) in
+  build_confined sym wc goal' ->
+  let o1 := build_sym wc RULES_PATH goal' in
+  let o2 := build_sym (erase_table sym wc) RULES_PATH goal' in
+  o_verdict o1 = o_verdict o2 /\ w_files (o_world o1) = w_files (o_world o2) /\
+  rd_cache (w_rd (o_world o1)) = rd_cache (w_rd (o_world o2)) /\
+  rd_hist (w_rd (o_world o1)) = rd_hist (w_rd (o_world o2)) /\
+  o_commands o1 = o_commands o2 /\ o_status o1 = o_status o2.
+Proof. exact coarse_clean_crash_next_build_table_irrelevant_sym. Qed.
+Print Assumptions C18_any_clock_build_after_a_killed_clean.
+
+Theorem C18_any_clock_every_history_with_kills : forall mode (t0 : N) (kops : list (kop sym)) goal,
+  (0 < t0)%N -> confined_khistory_sym (init_world mode t0) kops ->
+  build_confined sym (fold_left apply_kop_sym kops (init_world mode t0)) goal ->
+  let w := fold_left apply_kop_sym kops (init_world mode t0) in
+  let o1 := build_sym w RULES_PATH goal in
+  let o2 := build_sym (erase_table sym w) RULES_PATH goal in
+  o_verdict o1 = o_verdict o2 /\ w_files (o_world o1) = w_files (o_world o2) /\
+  rd_cache (w_rd (o_world o1)) = rd_cache (w_rd (o_world o2)) /\
+  rd_hist (w_rd (o_world o1)) = rd_hist (w_rd (o_world o2)) /\
+  o_commands o1 = o_commands o2 /\ o_status o1 = o_status o2.
+Proof. exact c18_every_history_with_kills_sym. Qed.
+Print Assumptions C18_any_clock_every_history_with_kills.
+
+From Coq Require Import Relations NArith.
+Local Close Scope nat_scope.
+Local Open Scope N_scope.
+(* ---- files dated 0, the Unix epoch (round 4; Model/Inv.v no longer assumes them away; Proofs/EpochFacts.v) ----
+   "Nothing remembered" is the WHOLE state FileState::empty(), not "time 0": a file dated 0 is hashed correctly
+   whatever is remembered; and zeroing only the time of a remembered state (instead of forgetting the whole state)
+   is refuted on a world where a file dated 0 has just been recovered. *)
+
+Theorem C18_file_dated_zero_is_hashed_correctly : forall (w : world sym) p assumed f,
+  disk_inv sym_eqb SContent w -> state_ok sym_eqb SContent w assumed ->
+  fget w p = Some f -> f_mtime f = 0%N ->
+  get_file_ticket sym_eqb SContent w p assumed = Some (SContent (f_content f)).
+Proof. exact shortcut_transparent_at_epoch_sym. Qed.
+Print Assumptions C18_file_dated_zero_is_hashed_correctly.
+
+Theorem C18_zeroing_the_time_is_not_forgetting_refuted :
+  (* the mutant shortcut is harmless: with every sound state it returns the hash of the file's bytes *)
+  (forall (w : world sym) p assumed,
+     state_ok sym_eqb SContent w assumed ->
+     get_file_ticket' SContent w p assumed = option_map (fun f => SContent (f_content f)) (fget w p)) /\
+  (* the mutant forget_replaced is not: in the world where t has just been recovered with time 0 and content "X",
+     zeroing the time of what was remembered about t ("Y") leaves a state that is not sound, and the (real) shortcut
+     takes it for the hash of t; the model's forget_replaced leaves the empty state, which is sound *)
+  (disk_inv sym_eqb SContent ep_w /\
+   file_at ep_w [116] = Some ([88], 0%N) /\
+   forget' ep_st = mk_fstate (SContent [89]) 0%N false /\
+   ~ state_ok sym_eqb SContent ep_w (forget' ep_st) /\
+   get_file_ticket sym_eqb SContent ep_w [116] (forget' ep_st) = Some (SContent [89]) /\
+   state_ok sym_eqb SContent ep_w (empty_state SContent) /\
+   get_file_ticket sym_eqb SContent ep_w [116] (empty_state SContent) = Some (SContent [88])) /\
+  (* hence the counterpart for forget' of R3 (InvFacts.state_ok_stable_steps: a sound state stays sound along
+     ruler's and the user's steps) is false: ep_st is sound before the third build, forget' ep_st is not after it *)
+  ~ (forall (w w' : world sym) (st : fstate sym),
+       disk_inv sym_eqb SContent w -> state_ok sym_eqb SContent w st ->
+       clos_refl_trans _ (step sym_eqb SContent) w w' -> state_ok sym_eqb SContent w' (forget' st)).
+Proof. exact epoch_legacy_refuted. Qed.
+Print Assumptions C18_zeroing_the_time_is_not_forgetting_refuted.
